@@ -2,7 +2,7 @@ SPECIFICATION Spec
 CONSTANTS
   Faithful = TRUE
   CrossResps <- CoreResps
-  Sides = {"req", "rsp"}
+  Sides = {"fault"}
   FaultReqs <- FaultReqsQ
   FaultResps <- FaultRespsQ
 INVARIANTS TypeOK RelayedUnchanged XffDeviationShape ReturnedUnchanged UpstreamHeaderWins OneCall FailureIsReported FaithfulPresentations OwnAnswerOnly DevsOnlyWhenFaithful
